@@ -9,18 +9,17 @@ EXPLANATION = (
     "all ids in use, so max+1 is fresh) are preserved by every user action; AddNode/DeleteNode are proved to add/remove exactly the "
     "node under its id in both lookups (real bookkeeping helpers inlined) and to raise the maxima. The bodies of get_track_neighbors (in-place sort by "
     "time, scan with break: loop invariant over the sorted lookup list) and has_track_id_at_time are PROVED against their query contracts: results equal a "
-    "scan of the graph for every track id and time. The lookup bookkeeping at the end of the relabel walk is PROVED too: the four leaf helpers (_remove_from/_add_to x tracklet/lineage) against bag specifications for node lists of every length (contracts/bookkeeping.py), and the walk body to re-establish B1 and raise the maxima (contracts/walk.py, invariants K10/K11 on the collected node lists). BOUNDED cross-check (not a proof): the walk's lookups on all small forests; the query bodies "
+    "scan of the graph for every track id and time. The lookup bookkeeping at the end of the relabel walk is PROVED too: the four leaf helpers (_remove_from/_add_to x tracklet/lineage) against bag specifications for node lists of every length (contracts/bookkeeping.py), and the walk body to re-establish B1 and raise the maxima (contracts/walk.py, invariants K10/K11 on the collected node lists). Tracks._get_new_node_ids is proved to return pairwise distinct ids none of which is a node, all below the advanced counter (partial correctness; contracts/newids.py). BOUNDED cross-check (not a proof): the walk's lookups on all small forests; the query bodies "
     "are additionally cross-checked natively on all small forests with every order of the lookup lists.")
 ASSUMPTIONS = ["tracklet (and, for the lineage clauses, lineage) feature enabled and registered",
                "lineage lookup B1 is claimed only through AddNode/DeleteNode contracts and the bounded walk check"]
-NOT_UNDER_CONTRACT = [
-                      "Tracks._get_new_node_ids (see bounded/new_node_ids)"]
+NOT_UNDER_CONTRACT = []
 
 
 def units(tier):
     from contracts import bookkeeping, queries, walk
-    from contracts import bulkids
-    return bulkids.units() + bookkeeping.units() + walk.units() + queries.units() + useractions.units(UA_ALL) + useractions.units(UA_ALL, {"lineage_inv": True}) + primitives.units(names=["AddNodeC", "DeleteNodeC"])
+    from contracts import bulkids, newids
+    return newids.units() + bulkids.units() + bookkeeping.units() + walk.units() + queries.units() + useractions.units(UA_ALL) + useractions.units(UA_ALL, {"lineage_inv": True}) + primitives.units(names=["AddNodeC", "DeleteNodeC"])
 
 
 def bounded(tier, seed):
